@@ -49,6 +49,12 @@ def link_invariant(h, parts, ranks, displaying_only=False):
     return S.And(conj)
 
 
+def all_display(h, parts):
+    """preferred region for counterexamples: every resting order displays quantity (so a plain draining match observes
+    every queue position)"""
+    return S.And([S.Implies(occ, S.Not(S.Eq(OrderView(h.L, o).displayed, S.bv(0, 64)))) for occ, key, o in parts['resting']])
+
+
 def _k(key):
     from ..values import key_repr
     return key_repr(key)
@@ -86,22 +92,28 @@ def obligations(c):
     J0 = link_invariant(h, pre_parts, ranks)
     c.domain.append(J0)
 
-    def drain_info(expected_key_fn):
+    def drain_info(expected_fn):
         def f(cc, model):
-            return {'expected_first': expected_key_fn(model)}
+            return expected_fn(model)
         return f
 
     def expected_first_after(parts_after, ranks_after):
+        """what the arrival-order model prescribes for the state: the full maker order of a draining match (after every
+        resting order that displays nothing has been given a display of 1 by a same-price amendment, which keeps places)"""
         def g(model):
-            best = None
+            rows = []
             for occ, key, o in parts_after['resting']:
-                if not conc(occ, model) or conc(OrderView(L, o).displayed, model) == 0:
+                if not conc(occ, model):
                     continue
                 r = ranks_after.get(_k(key))
-                rv = conc(r, model) if r is not None else 1 << 30
-                if best is None or rv < best[0]:
-                    best = (rv, uuid_str(_k(key)[2][0]))
-            return best[1] if best else None
+                if r is None:
+                    continue
+                rows.append((conc(r, model), uuid_str(_k(key)[2][0]), conc(OrderView(L, o).displayed, model)))
+            rows.sort()
+            disp = [x for x in rows if x[2] != 0]
+            return {'expected_first': disp[0][1] if disp else None,
+                    'expected_order': [x[1] for x in rows],
+                    'amend': [x[1] for x in rows if x[2] == 0]}
         return g
 
     if op in 'AR':
@@ -114,23 +126,23 @@ def obligations(c):
         stale = S.Or([S.And(pr, S.Not(pp), veq(idv, oid)) for _, pr, pp, idv in pre_parts['tickets']])
         if op == 'A':
             out.append({'name': 'A: added order joins at the back', 'kind': 'obligation', 'goal': S.And(p['live'], S.Not(J1)),
-                        'drain': drain_info(expected_first_after(parts, r2))})
+                        'drain': drain_info(expected_first_after(parts, r2)), 'prefer': all_display(h, parts)})
         else:
             out.append({'name': 'R: re-added id joins at the back', 'kind': 'obligation', 'goal': S.And(p['live'], S.Not(J1o)),
-                        'known': 'C04/stale-ticket-keeps-old-position', 'drain': drain_info(expected_first_after(parts, r2))})
+                        'known': 'C04/stale-ticket-keeps-old-position', 'drain': drain_info(expected_first_after(parts, r2)), 'prefer': all_display(h, parts)})
             out.append({'name': 'R: tolerant: re-add joins at the back unless a stale ticket of that id is still queued',
                         'kind': 'obligation', 'goal': S.And(p['live'], S.Not(stale), S.Not(J1)),
-                        'drain': drain_info(expected_first_after(parts, r2))})
+                        'drain': drain_info(expected_first_after(parts, r2)), 'prefer': all_display(h, parts)})
     elif op == 'Q':
         parts = h.level_parts(rec['after'])
         J1 = link_invariant(h, parts, ranks)
         out.append({'name': 'Q: same-price amendment keeps the place of every order', 'kind': 'obligation',
-                    'goal': S.And(p['live'], S.Not(J1)), 'drain': drain_info(expected_first_after(parts, ranks))})
+                    'goal': S.And(p['live'], S.Not(J1)), 'drain': drain_info(expected_first_after(parts, ranks)), 'prefer': all_display(h, parts)})
     elif op in 'CPBX':
         parts = h.level_parts(rec['after'])
         J1 = link_invariant(h, parts, ranks)
         out.append({'name': '%s: removal / amendment leaves the relative order of the others' % op, 'kind': 'obligation',
-                    'goal': S.And(p['live'], S.Not(J1)), 'drain': drain_info(expected_first_after(parts, ranks))})
+                    'goal': S.And(p['live'], S.Not(J1)), 'drain': drain_info(expected_first_after(parts, ranks)), 'prefer': all_display(h, parts)})
     elif op in 'MI':
         # (a) a transaction's maker is the earliest-ranked displaying order of the pre-state
         checks = []
@@ -198,7 +210,7 @@ def obligations(c):
                 ntx = dict(zip(L.structs['MatchResult'], cut['result']))['transactions'][0].length
 
                 def f(cc, model):
-                    return {'expected_first': g(model), 'within_call': 0, 'skip': conc(ntx, model)}
+                    return {'expected_first': g(model)['expected_first'], 'within_call': 0, 'skip': conc(ntx, model)}
                 return f
             if op == 'M':
                 out.append({'name': '%s: a replenished maker moves to the back' % op, 'kind': 'obligation',
@@ -246,11 +258,60 @@ def obligations(c):
             Jt = link_invariant(h, parts, tolerant)
             out.append({'name': 'M(return): a partially filled maker keeps its place', 'kind': 'obligation',
                         'goal': S.And(p['live'], vis_partial, S.Not(anyvis_dup), S.Not(Js_o)),
-                        'known': 'C04/partial-fill-requeued-at-tail', 'drain': drain_info(expected_first_after(parts, strict))})
+                        'known': 'C04/partial-fill-requeued-at-tail', 'drain': drain_info(expected_first_after(parts, strict)), 'prefer': all_display(h, parts)})
             out.append({'name': 'M(return): tolerant: the visited maker is at the back and nobody else moved (unless an older '
                                 'ticket of its id is still queued)', 'kind': 'obligation',
                         'goal': S.And(p['live'], S.Not(anyvis_dup), S.Not(Jt)),
-                        'drain': drain_info(expected_first_after(parts, tolerant))})
+                        'drain': drain_info(expected_first_after(parts, tolerant)), 'prefer': all_display(h, parts)})
+        # (d) cube I at return: the makers this call has set aside are re-queued behind everything that was re-queued
+        #     during the sweep and IN THE ORDER in which they were set aside
+        if rec['ret'] is not None and op == 'I':
+            from .c01 import set_aside_entries
+            parts = h.level_parts(h.level_value())
+            start = rec['start']
+            sa = set_aside_entries(start['locals'])
+            mr = dict(zip(L.structs['MatchResult'], rec['ret']))
+            txs = mr['transactions'][0]
+            t0n = dict(zip(L.structs['MatchResult'], start['result']))['transactions'][0].length
+            lo = c.inp.var('rank_requeued_in_loop', RW)
+            hi = c.inp.var('rank_setaside_later', RW)
+            half = S.bv(1 << (RW - 1), RW)
+            rank_S = [c.inp.var('rank_setaside%d' % j, RW) for j in range(len(sa))]
+            c.domain += [S.Uge(lo, half)]
+            prev = lo
+            for rs in rank_S:
+                c.domain.append(S.Ugt(rs, prev))  # set aside in this order, all behind what was re-queued during the sweep
+                prev = rs
+            c.domain.append(S.Ugt(hi, prev))
+            r2 = {}
+            anyvis_dup = S.FALSE
+            for occ, key, o in pre_parts['resting']:
+                kk = _k(key)
+                alts = []
+                none_live_before = S.TRUE
+                for _, pr, pp, idv in pre_parts['tickets']:
+                    avail = S.And(pr, S.Not(pp))
+                    is_live = S.Or([S.And(oc2, veq(idv, k2)) for oc2, k2, _ in pre_parts['resting']])
+                    alts.append(S.And(avail, veq(idv, key), occ, none_live_before))
+                    none_live_before = S.And(none_live_before, S.Not(S.And(avail, is_live)))
+                visited = S.And(S.Or(alts), S.Not(S.Eq(start['remaining'], S.bv(0, 64))))
+                traded = S.Or([S.And(S.Ult(S.bv(i, 64), txs.length), S.Uge(S.bv(i, 64), t0n),
+                                     veq(dict(zip(names, t))['maker_order_id'], key)) for i, t in enumerate(txs.cells)])
+                hpost = OrderView(L, o).hidden
+                for oc2, k2, o2 in parts['resting']:
+                    if _k(k2) == kk:
+                        hpost = S.Ite(oc2, OrderView(L, o2).hidden, hpost)
+                set_aside_now = S.And(S.Not(traded), S.Eq(hpost, OrderView(L, o).hidden))
+                r2[kk] = S.Ite(visited, S.Ite(set_aside_now, hi, lo), ranks[kk])
+                ntick = [S.And(pr, S.Not(pp), veq(idv, key)) for _, pr, pp, idv in pre_parts['tickets']]
+                two = S.Or([S.And(ntick[a], ntick[b]) for a in range(len(ntick)) for b in range(a)])
+                anyvis_dup = S.Or(anyvis_dup, S.And(visited, two))
+            for (v, _, so), rs in zip(sa, rank_S):
+                r2[_k(OrderView(L, so).id)] = rs
+            Jr = link_invariant(h, parts, r2)
+            out.append({'name': 'I(return): makers set aside by the call are re-queued at the back in the order in which they were set '
+                                'aside (unless an older ticket of the visited id is still queued)', 'kind': 'obligation',
+                        'goal': S.And(p['live'], S.Not(anyvis_dup), S.Not(Jr))})
     for o in out:
         if o.get('drain') is None:
             o.pop('drain', None)
@@ -285,7 +346,45 @@ def sweep_obligations(c):
             traded = S.Or([S.And(v, veq(t['maker_order_id'], key)) for v, t in T[:i + 1]])
             waiting.append(S.And(occ, S.Not(veq(key, x)), S.Not(S.Eq(OrderView(L, o).displayed, S.bv(0, 64))), S.Not(traded)))
         bad.append(S.And(again, S.Not(dup), S.Or(waiting)))
-    return [{'name': 'M(sweep): no maker trades twice in a row while another displaying order has not traded yet in this call',
+    # makers that the call visited without trading (set aside) keep their relative order
+    post = h.level_parts(rec['after'])
+    ranks = ghost_ranks(c)
+    c.domain.append(link_invariant(h, pre, ranks))
+    popped_after = {eid: pp for eid, _, pp, _ in post['tickets']}
+
+    def info(key, o):
+        ntick = [S.And(pr, S.Not(pp), veq(idv, key)) for _, pr, pp, idv in pre['tickets']]
+        two = S.Or([S.And(ntick[a], ntick[b]) for a in range(len(ntick)) for b in range(a)])
+        visited = S.Or([S.And(pr, S.Not(pp), veq(idv, key), popped_after.get(eid, S.FALSE)) for eid, pr, pp, idv in pre['tickets']])
+        traded = S.Or([S.And(v, veq(t['maker_order_id'], key)) for v, t in T])
+        still = S.FALSE
+        for oc2, k2, o2 in post['resting']:
+            if _k(k2) == _k(key):
+                still = S.And(oc2, veq(o2, o))
+        return S.And(visited, S.Not(traded), still, S.Not(two))
+    sa_bad = []
+    sa_rows = []
+    for occ_a, key_a, o_a in pre['resting']:
+        ia = S.And(occ_a, info(key_a, o_a))
+        sa_rows.append((ia, key_a, ranks[_k(key_a)]))
+        for occ_b, key_b, o_b in pre['resting']:
+            if _k(key_a) == _k(key_b):
+                continue
+            ib = S.And(occ_b, info(key_b, o_b))
+            sa_bad.append(S.And(ia, ib, S.Ult(ranks[_k(key_a)], ranks[_k(key_b)]), S.Not(first_before(post['tickets'], key_a, key_b))))
+
+    def sa_drain(cc, model):
+        rows = sorted((conc(r, model), uuid_str(_k(k)[2][0])) for i, k, r in sa_rows if conc(i, model))
+        amend = [uuid_str(_k(k)[2][0]) for oc, k, o in post['resting'] if conc(oc, model) and conc(OrderView(L, o).displayed, model) == 0]
+        return {'expected_first': None, 'expected_order': [x[1] for x in rows], 'subset': True, 'amend': amend}
+    extra = [{'name': 'M(sweep): makers passed over without a trade keep their relative order when the call re-queues them',
+              'kind': 'obligation', 'goal': S.And(p['live'], S.Or(sa_bad)), 'drain': sa_drain,
+              # a same-price amendment gives an iceberg its display back (not a reserve order): prefer observable makers
+              'prefer': S.And([S.Implies(occ, S.Eq(o.tag, S.bv(L.variant_index('OrderType', 'IcebergOrder'), 64)))
+                               for occ, key, o in pre['resting']])},
+             {'name': 'reach: a sweep passes over two makers without trading', 'kind': 'witness', 'required': True,
+              'goal': S.And(p['live'], S.Or([S.And(sa_rows[i][0], sa_rows[j][0]) for i in range(len(sa_rows)) for j in range(i)]))}]
+    return extra + [{'name': 'M(sweep): no maker trades twice in a row while another displaying order has not traded yet in this call',
              'kind': 'obligation', 'goal': S.And(p['live'], S.Or(bad))},
             {'name': 'reach: a sweep in which a replenished maker trades twice', 'kind': 'witness', 'required': True,
              'goal': S.And(p['live'], S.Or([S.And(T[i][0], veq(T[i][1]['maker_order_id'], T[j][1]['maker_order_id']))
@@ -303,7 +402,7 @@ def cubes(tier):
     n, k = (2, 3) if tier == 'quick' else (3, 5)
     for op in 'ARQCPBXMI':
         out.append({'seq': op, 'pre': {'N': n, 'K': k}, 'cut_after': 1, 'pop_unwind': k + 2, 'qty_mode': 'full', 'price': 1,
-                    'positive_quantities': False, 'native': op != 'I', 'family': 'inductive', 'default_unwind': 8})
+                    'positive_quantities': False, 'match_from_one': False, 'set_aside_max': 2, 'native': op != 'I', 'family': 'inductive', 'default_unwind': 8})
     L_ = 3 if tier == 'quick' else 4
     out.append({'seq': 'M', 'pre': {'N': n, 'K': k}, 'match_unwind': L_, 'pop_unwind': k + L_ + 2, 'qty_mode': 'full', 'price': 1,
                 'family': 'sweep', 'default_unwind': 8})
